@@ -34,7 +34,7 @@ def run(ck):
             else:
                 ck.inconclusive.append(f'{h.name} FAILED ({h.failed_checks[:3]}); no rule of the replay corpus reproduces a deviation natively (abstract counterexample not concretised)')
         else:
-            kprop.replay_search_failure(ck, B, h, int(re.search(r'_n(\\d)', h.name).group(1)))
+            kprop.replay_search_failure(ck, B, h, int(re.search(r'_n(\d)', h.name).group(1)))
     kprop.run_harnesses(ck, hs, on_fail=on_fail)
     ck.functions += ['datetime::find::find_date_time', 'DateTime::find_n', 'FoundDateTimeListRefMut::{push,data,count,is_exhaustive,unique}', 'TimeZoneRef::find_local_time_type', 'TimeZoneRef::unix_time_to_unix_leap_time', 'TimeZoneRef::unix_leap_time_to_unix_time', 'DateTime::from_timespec_and_local']
     ck.explanation = 'Search and forward lookup are two different algorithms; CBMC decides that they agree for every zone up to the bound, every civil time and every instant (relation over all zones x all local times).'
